@@ -1,9 +1,9 @@
 package harness
 
 import (
+	"fmt"
 	"os"
 	"path/filepath"
-	"fmt"
 	"sort"
 
 	"github.com/klev-dev/klevdb"
